@@ -220,7 +220,14 @@ func signExchange(e *sxg.Exchange, key keyMat, rs int, date, expires int64, cert
 	return
 }
 
-func (s signedEx) sigTab() Sx { return L(L(Zi(int64(s.key.kid)), B(s.msg), B(s.sig))) }
+// the oracle table lists a (key, message, signature) triple only when the
+// standard library's ECDSA accepts it
+func (s signedEx) sigTab() Sx {
+	if !ecdsaOK(s.key, s.msg, s.sig) {
+		return L()
+	}
+	return L(L(Zi(int64(s.key.kid)), B(s.msg), B(s.sig)))
+}
 
 func x509Tab(keys ...keyMat) Sx {
 	out := []Sx{}
